@@ -2,13 +2,31 @@
 import json
 from lib import vlib
 
-def run_sem(ctx, cfg, configs, nontrivial=lambda r: True, label="sem", sample_every=50, extra_env=None):
+def run_sem(ctx, cfg, configs, nontrivial=lambda r: True, label="sem", sample_every=50, extra_env=None, trace_every=0):
     out = ctx.path("%s.ndjson" % label)
     env = dict(OUT=out)
     env.update(extra_env or {})
     ctx.tlc("UgoSemFam", cfg, env=env, timeout=2400, name=label)
     res = ctx.path("%s-res.ndjson" % label)
-    ctx.vh("sem", out, res, ",".join(configs))
+    henv = None
+    if trace_every:
+        trace, regs = ctx.path("%s-trace.ndjson" % label), ctx.path("%s-regs.json" % label)
+        henv = dict(VERIF_TRACE_OUT=trace + "," + regs, VERIF_TRACE_EVERY=trace_every)
+    ctx.vh("sem", out, res, ",".join(configs), env=henv)
+    if trace_every:
+        from checks import c03
+        tv = c03.validate_trace(ctx, trace, regs, label + "-trace")
+        ctx.cov["trace_events"] = tv["events"]
+        tags = {}
+        for r in vlib.read_ndjson(res):
+            tags.setdefault(r.get("tag"), r)
+        for b in tv["bad"]:
+            r = tags.get(b["tag"], {})
+            ctx.violation("trace:" + vlib.sha(b["why"] + r.get("src", str(b["tag"]))),
+                          "recorded VM trace violates an execution invariant: %s (event %d) in\n%s" % (b["why"], b["at"], r.get("src", "?")),
+                          dict(kind="trace", src=r.get("src"), why=b["why"]))
+        for d in tv["drift"][:50]:
+            ctx.drift.append(dict(trace_tag=d["tag"], why=d["why"]))
     n = 0
     for r in vlib.read_ndjson(res):
         n += 1
